@@ -74,6 +74,16 @@ class KDTree:
             else: # the leaf needs to be split
                 # split the points according to the current axis
                 split_value, pts_less, pts_more = self._split_points(leaf.points, leaf.split_axis)
+                n_tries = 1
+                while (pts_less.size==0 or pts_more.size==0) and n_tries<self.dim:
+                    # all the points fell on the same side (repeated coordinates) : try the next axis
+                    leaf.split_axis = (leaf.split_axis + 1)%self.dim
+                    split_value, pts_less, pts_more = self._split_points(leaf.points, leaf.split_axis)
+                    n_tries += 1
+                if pts_less.size==0 or pts_more.size==0:
+                    # the points cannot be separated (repeated points) : keep them in a single leaf
+                    self.nodes.append(leaf)
+                    continue
                 
                 # we create a new node to replace the original leaf and append two leaves that will be its children
                 node = KDTree.Node(leaf.id, leaf.split_axis, parent=leaf.parent, bb=leaf.bb, split_value=split_value)
